@@ -3,7 +3,7 @@
 (* transcribed from Open vSwitch's nicira-ext.h (struct nicira_header,        *)
 (* nx_action_*, nx_flow_mod, nx_packet_in, NXM_HEADER).  Pure data: the codec *)
 (* that interprets these tables is in OFWire.tla.                             *)
-EXTENDS WireBase
+EXTENDS WireBase, Bitwise
 
 NXVendor == <<0, 0, 35, 32>>                      \* NX_VENDOR_ID 0x00002320
 
@@ -29,6 +29,20 @@ NxmMaskable ==
   \cup { <<1, i>> : i \in 0..15 }
   \cup { <<1, 16>>, <<1, 19>>, <<1, 20>>, <<1, 23>>, <<1, 26>>, <<1, 30>>, <<1, 31>>, <<1, 32>>, <<1, 34>> }
 
+(* Masks: canonical and preserved forms.                                      *)
+(*  - An entry a CALLER builds with an all-ones mask is the unmasked entry:   *)
+(*    the library sends the short form, so callers' entries are canonical     *)
+(*    (no mask, or a mask that is not all-ones) and carry no value bit        *)
+(*    outside the mask.                                                       *)
+(*  - An entry RECEIVED with hasmask set keeps the mask it came with -         *)
+(*    all-ones and all-zero included - and an entry of a field the library    *)
+(*    has no name for is kept verbatim, so that re-encoding a decoded match   *)
+(*    reproduces the peer's bytes (nxm_entry._force_mask, NXM_GENERIC).       *)
+NxmCallerMask(value, mask) ==
+  mask = <<>> \/ (/\ \E i \in 1..Len(mask) : mask[i] # 255
+                  /\ \A i \in 1..Len(mask) : (value[i] & (255 - mask[i])) = 0)
+NxmPeerMask(value, mask) ==
+  mask = <<>> \/ \A i \in 1..Len(mask) : (value[i] & (255 - mask[i])) = 0
 NxmHeader(vendor, field, hasmask, paylen) ==
   <<vendor[1], vendor[2], field[1] * 2 + (IF hasmask THEN 1 ELSE 0), paylen>>
 
